@@ -490,3 +490,13 @@ Proof.
     destruct (hrun B cfg allow s h) as [l s2]. cbn [fst snd hsel] in *.
     unfold hlisted at 1. cbn [fst]. rewrite Hc, Hk. split; [exact IH1|exact IH2].
 Qed.
+
+(* ---- C20 for whole histories (any backend, store, history; faulty storage included, see FaultProps) ---- *)
+Theorem cache_control_history B cfg allow h : forall s,
+  Forall (fun r => rs_cache r = true) (fst (hrun B cfg allow s h)).
+Proof.
+  induction h as [|[rq E] h IH]; intros s; [constructor|].
+  cbn [hrun]. pose proof (cache_control_everywhere B cfg allow s rq E) as Hc.
+  destruct (http_step B cfg allow s (rq, E)) as [[r s1] t]. specialize (IH s1).
+  destruct (hrun B cfg allow s1 h) as [l s2]. cbn [fst] in *. constructor; assumption.
+Qed.
